@@ -154,6 +154,10 @@ func (s *ScanMethod) ProcessPacketData(data []byte, _ *gopacket.CaptureInfo) (er
 	if !validPacket(s.rcvDecoded) {
 		return
 	}
+	// IP version is not verified by the decoder
+	if s.rcvIP.Version != 4 {
+		return
+	}
 
 	if s.pktFilter(&s.rcvTCP) {
 		s.results.Put(&ScanResult{
